@@ -126,10 +126,14 @@ import "batch/hc"
 func tap(p *P) func() hc.Config {
 	return func() hc.Config {
 		st := make([]int32, len(p._stack))
+		var errs []int
 		for i := range p._stack {
 			st[i] = p._stack[i].State
+			if e, ok := p._stack[i].Sym.(Error); ok {
+				errs = append(errs, e.Token.Seq)
+			}
 		}
-		return hc.Config{States: st, La: p._la, Qla: p._qla}
+		return hc.Config{States: st, La: p._la, Qla: p._qla, Errs: errs}
 	}
 }
 `
